@@ -71,6 +71,7 @@ impl DummyTestHeader {
 
 impl Header for DummyTestHeader {
     fn payload_len(&self) -> usize {
+        assert!(self.size as usize >= mem::size_of::<Self>());
         self.size as usize - mem::size_of::<Self>()
     }
 
